@@ -123,6 +123,9 @@ Proof.
     exists [10%N]. repeat split. exists []. reflexivity.
 Qed.
 
+Lemma pgood_eof : pgood p_eof.
+Proof. intros [|x r]; cbn; auto. exists []. auto. Qed.
+
 Lemma pspec_not_line_ending : pspec (fun pre a => pre = a) p_not_line_ending.
 Proof.
   intros i. unfold p_not_line_ending.
